@@ -24,7 +24,7 @@ class Unsupported(Exception):
 
 
 # ----------------------------------------------------------------------------- tokenizer / parser
-TOK = re.compile(r"\s*(?:(\d[\d_]*(?:u\d+|i\d+|usize)?)|([A-Za-z_][A-Za-z0-9_]*)|(::|->|=>|==|!=|&&|\|\||[-+*/&|!.,;:(){}\[\]<>=#'])|(\"(?:[^\"\\\\]|\\\\.)*\"))")
+TOK = re.compile(r"\s*(?:(\d[\d_]*(?:u\d+|i\d+|usize)?)|([A-Za-z_][A-Za-z0-9_]*)|(::|->|=>|==|!=|<<|&&|\|\||[-+*/&|!.,;:(){}\[\]<>=#'])|(\"(?:[^\"\\\\]|\\\\.)*\"))")
 
 
 def tokenize(src):
@@ -125,7 +125,7 @@ class Parser:
                 return
             self.next()
 
-    PREC = {"|": 1, "&": 2, "==": 3, "+": 4, "-": 4, "*": 5}
+    PREC = {"==": 0, "|": 1, "&": 3, "<<": 4, "+": 5, "-": 5, "*": 6}
 
     def expr(self, minp=0):
         lhs = self.unary()
@@ -444,6 +444,8 @@ def ev(env, e, loc):
                 return a + b
             if op == "-":
                 return a - b
+            if op == "<<" and a.is_Integer and b.is_Integer:
+                return a * 2 ** int(b)
             raise Unsupported("operator %s on field values" % op)
         if isinstance(a, tuple) and isinstance(b, tuple) and op in ("&", "|"):
             return b_and(a, b) if op == "&" else b_or(a, b)
